@@ -201,10 +201,15 @@ func genC06Harness(u *PkgUnit) (int, error) {
 	sb.WriteString("//go:build verif\n\npackage " + g.Name + "\n\nimport (\n\t\"encoding/json\"\n\n\t\"vscratch/vrt\"\n)\n\nvar _ = json.Valid\n\n")
 	g.emitWF(&sb, types, u.Spec)
 	for _, t := range types {
+		known := ""
+		if g.embeddedSwallows(t) {
+			known = "\tvrt.Known(\"C06-allof-member-with-additional-properties\", true)\n"
+		}
 		fmt.Fprintf(&sb, `func VerifC06_%s() {
 	var v %s
 	vrt.Arbitrary(&v, "v")
 	vrt.Assume(verifWF_%s(v))
+`+known+`
 	bs, err := v.MarshalJSON()
 	vrt.Assert(err == nil, "MarshalJSON failed on a value of its own type")
 	if err != nil {
@@ -330,4 +335,26 @@ func (g *GenPkg) discriminatorWF(t string, fs [][2]string, spec *SpecRef) string
 		out += fmt.Sprintf("\tif v.%s.IsSet {\n%s\t\tif !(%s) {\n\t\t\treturn false\n\t\t}\n\t}\n", f[0], pre, strings.Join(conds, " || "))
 	}
 	return out
+}
+
+// embeddedSwallows: T embeds (allOf) a member that has additionalProperties and
+// T has further members/properties: the member's decoder then also collects
+// its siblings' keys as additional properties (recorded known finding).
+func (g *GenPkg) embeddedSwallows(t string) bool {
+	fs := g.structFields(t)
+	if len(fs) < 2 {
+		return false
+	}
+	for _, f := range fs {
+		if f[0] != "" {
+			continue
+		}
+		e := strings.TrimPrefix(f[1], "*")
+		for _, ef := range g.structFields(e) {
+			if ef[0] == "AdditionalProperties" {
+				return true
+			}
+		}
+	}
+	return false
 }
